@@ -99,6 +99,23 @@ PROPS = {
         'level_note': 'Trusted: rustc front end + MIR (two cargo profiles), the extractor.',
         'technique': 'write-pairing / must-pass-through rules over resolved MIR in two cfg worlds (rustc_private driver)',
     },
+    'C10': {
+        'module': 'c10',
+        'explanation': 'The difference between the build worlds is source text under cfg: every cfg!() site (found by macro provenance in '
+                       'MIR, both arms kept at mir-opt-level 0) is classified by analysis as trace-only, check-only, collection pacing or a '
+                       'listed guarded site; debug_assert! sites are enumerated; the dev and release worlds (plus each safe_* feature world '
+                       'in the thorough tier) are compared item by item; the world-sensitive rules (active-fiber pairing, dispatch totality) '
+                       'are re-evaluated on the release world.',
+        'assumptions': COMMON_ASSUME + ['C01 (pacing arms are equivalent only if collection is safe at every allocation)',
+                                        'C04/C02 (check-only arms differ only when the checked condition holds)'],
+        'not_decided': ['observable equality of outputs (needs both binaries to run)'],
+        'level_text': 'Decides V1-V4: no unclassified configuration-dependent code, same API in both worlds, world-sensitive pairing rules hold '
+                      'in the release world.',
+        'design_ref': 'DESIGN.md section 1, C10',
+        'level_note': 'Trusted: rustc front end + MIR under two cargo profiles (seven in the thorough tier), the extractor, '
+                      'rules/tables/c10_*.json.',
+        'technique': 'cfg-site classification + cross-configuration item diff over MIR of several build worlds (rustc_private driver)',
+    },
 }
 
 NOT_APPLICABLE = {
